@@ -177,10 +177,16 @@ def reduce_bulk_check(ctx, c, outs):
     g = np.random.default_rng(c["bulk"])
     q = g.normal(size=(c["n"], 4))
     q /= np.linalg.norm(q, axis=1)[:, None]
+    Hl, Hr = Gl, Gr
+    if c.get("perm") is not None:
+        # the same two point groups with their operations stored in another order (a Symmetry indexed with a
+        # permutation is still that point group): nothing in the property depends on the storage order
+        gp = np.random.default_rng(c["perm"])
+        Hl, Hr = Gl[gp.permutation(Gl.size)], Gr[gp.permutation(Gr.size)]
     with warnings.catch_warnings():
         warnings.simplefilter("ignore")
         try:
-            R = reduce_call(mis(Gl, Gr, q, (c["n"],)), c)
+            R = reduce_call(mis(Hl, Hr, q, (c["n"],)), c)
         except NotImplementedError:
             return None if not region_defined(Gl, Gr) else "NotImplementedError although a region is defined"
     r = R.data.reshape(-1, 4)
@@ -360,6 +366,13 @@ def generate(ctx):
             if cub_hex:
                 ctx.count("reduce_bulk/cubic-x-hexagonal", ("rb", kl, kr), nontrivial=True)
                 yield "reduce_bulk", {"kl": int(kl), "kr": int(kr), "bulk": int(rng.integers(1 << 31)), "n": 400}
+    # the same groups with their operations stored in another order
+    for _ in range(6 if ctx.tier == "quick" else 40):
+        kl, kr = int(reps[rng.integers(len(reps))]), int(reps[rng.integers(len(reps))])
+        if gs[kl].size * gs[kr].size > 300 and ctx.tier == "quick":
+            kr = kl = int(reps[rng.integers(4)])
+        ctx.count("reduce_bulk/reordered-operations", ("rbp", kl, kr, _), nontrivial=True)
+        yield "reduce_bulk", {"kl": kl, "kr": kr, "bulk": int(rng.integers(1 << 31)), "n": 60, "perm": int(rng.integers(1 << 31))}
     # improper pairs in bulk (region construction goes through get_proper_groups)
     imp = [k for k, g in enumerate(gs) if not g.is_proper]
     for _ in range(8 if ctx.tier == "quick" else 60):
